@@ -245,7 +245,9 @@ func (s *Super) runPhase(ph Phase) []Phase {
 	s.collectRaces(racePrefix, ph.Name)
 
 	var follow []Phase
-	abnormal := werr != nil || pr == nil || !pr.Done
+	// a child that finished its phase is normal even when the race runtime makes it exit 66
+	abnormal := pr == nil || !pr.Done
+	_ = werr
 	if pr != nil {
 		s.merge(pr, ph.Name)
 	}
